@@ -59,6 +59,29 @@ def families(tier):
     for fname, table, members in c01.families(tier):
         if fname in ("rings-reaching-back-over-dot", "fragments", "rings-same-pair") and table == "default":
             fams.append(("C01:" + fname, list(members)))
+    # edit-distance-1 neighbourhood of well-formed strings: every printable ASCII character inserted at, or replacing, every
+    # position of a seed (symbol classification is done by hand-written patterns and suffix tests: one stray character
+    # must lead to a result or a DecoderError, never anything else)
+    seeds = ["[C][=C][C]", "[C][C@@H1][N+1]", "[C][C][Ring1][C]", "[C][=Branch2][C][C][O]", "[C][-/Ring1][C][F]",
+             "[S][epsilon][nop][O]", "[C][13CH2-1][#N]", "[C][Branch1_2][C][Cexpl][Expl=Ring1][C]"]
+    chars = [chr(c) for c in range(32, 127)]
+    for seed in seeds:
+        mem = []
+        for i in range(len(seed) + 1):
+            for ch in chars:
+                mem.append(("insert %r at %d" % (ch, i), seed[:i] + ch + seed[i:]))
+                if i < len(seed) and ch != seed[i]:
+                    mem.append(("replace %d by %r" % (i, ch), seed[:i] + ch + seed[i + 1:]))
+            if i < len(seed):
+                mem.append(("delete %d" % i, seed[:i] + seed[i + 1:]))
+        fams.append(("edit1:" + seed, mem))
+    from mc.oracles.misc import ELEMENTS
+    mem = []
+    for el in sorted(ELEMENTS):
+        for t in ("[%s]", "[C][=%s][C]", "[C][%s@@H1][C]", "[%s+1][#C]", "[C][Ring1][%s]", "[C][%sexpl]", "[C][:%s]", "[%s-1]", "[C][/%s][=C]"):
+            mem.append((t % el, t % el))
+            mem.append((t % el.lower(), t % el.lower()))
+    fams.append(("every-element", mem))
     fams.append(("oversized-index", [("n=%d" % n, "[C][C]" + "[Ring3][P][P][P]" * n) for n in (1, 5, 50, 500)]))
     return fams
 
@@ -76,7 +99,7 @@ def plan(tier, seed):
     for fi, (fname, members) in enumerate(families(tier)):
         name = "family/" + fname
         scopes.append({"name": name, "members": len(members), "range": "%s .. %s" % (members[0][0], members[-1][0])})
-        step = 10
+        step = 10 if len(members) < 500 else 200
         for k in range(0, len(members), step):
             tasks.append((name, ("family", fi, k, k + step, tier)))
     return {"scopes": scopes, "tasks": tasks, "bounds": {"nesting_max": 1200, "fragments_max": 200}}
